@@ -35,7 +35,9 @@ RULE = ("fault enumeration: histories of valid operations on GridArchive, CVTArc
         "field} x kind in {wrong rank, wrong inner shape, wrong length, NaN, +inf, -inf, None, missing / unknown / "
         "mis-shaped extra field} x batch position; a case is non-trivial when a rejected call hits a non-empty "
         "archive and is followed by a valid add; distinct by op list; the evidence lists which (entry, argument, "
-        "kind) triples were hit")
+        "kind) triples were hit; stratum `large`: one malformed element (or a short argument) at the head / middle / tail / "
+        "around multiples of 4096 and 16384 of a batch of 4097 .. 65537 rows through add / index_of / retrieve of every "
+        "archive type, oracle only")
 PARTIAL = ["exceptions raised from inside NumPy during a field write are outside a model of the Python control "
            "flow; they are reached by the enumeration only (every field layout is covered by the malformed stream)"]
 ASSUMPTIONS = ["observables compared: data() with all fields, thresholds, stats, best_elite, len; boundaries and "
@@ -94,8 +96,105 @@ def gen_prox(rng):
 STATS = {}
 
 
+# ---- large batches: a malformed element at the head / middle / tail of a batch of thousands of rows ----------------
+# (validation helpers that scan block-wise, chunked index searches, size-dependent fast paths: none of them is
+# reached by the small batches of the lock-step histories; oracle only: the call must raise and every observable of
+# the archive must stay bit-for-bit what it was)
+
+def gen_large(rng):
+    kind = rng.choice(["grid", "grid", "cvt", "cvt-brute", "prox", "sb"])
+    n = rng.choice([4097, 5000, 8193, 16385, 17000, 20000, 32769, 40000, 65537]) if kind != "sb" else rng.choice([300, 700])
+    nd = rng.choice([1, 2, 3]) if kind != "sb" else 2
+    arg = rng.choice(["objective", "measures", "measures", "solution_len", "objective_len", "extra"])
+    bad = rng.choice(["nan", "inf", "-inf"])
+    # position of the malformed element: first, last, middle, around multiples of 4096 / 16384 / the last full block
+    cands = [0, n - 1, n // 2, (n // 4096) * 4096, (n // 4096) * 4096 - 1, (n // 16384) * 16384, n - 2,
+             (n // 16384) * 16384 - 1, (n // 1024) * 1024]
+    pos = rng.choice([c for c in cands if 0 <= c < n])
+    entry = rng.choice(["add", "add", "add", "index_of", "retrieve"])
+    return {"family": "large", "kind": kind, "n": n, "nd": nd, "arg": arg, "bad": bad, "pos": pos, "entry": entry,
+            "dtype": rng.choice(["f64", "f32"]), "seed": rng.randint(0, 2**31), "col": rng.randint(0, nd - 1),
+            "ops": [{"op": "large"}]}
+
+
+def run_large(case):
+    import numpy as np
+    from core import Failure
+    from ribs.archives import CVTArchive, GridArchive, ProximityArchive, SlidingBoundariesArchive
+    rng = np.random.default_rng(case["seed"])
+    dt = {"f64": np.float64, "f32": np.float32}[case["dtype"]]
+    nd, n, kind = case["nd"], case["n"], case["kind"]
+    extra = {"tag": ((), np.int32)}
+    if kind == "grid":
+        a = GridArchive(solution_dim=2, dims=[7] * nd, ranges=[(-1.0, 1.0)] * nd, dtype=dt, extra_fields=extra)
+    elif kind in ("cvt", "cvt-brute"):
+        cents = rng.uniform(-1, 1, size=(50, nd))
+        kw = {} if kind == "cvt" else {"use_kd_tree": False, "chunk_size": 1000}
+        a = CVTArchive(solution_dim=2, cells=50, ranges=[(-1.0, 1.0)] * nd, custom_centroids=cents, dtype=dt,
+                       extra_fields=extra, **kw)
+    elif kind == "prox":
+        a = ProximityArchive(solution_dim=2, measure_dim=nd, k_neighbors=2, novelty_threshold=0.05, dtype=dt,
+                             extra_fields=extra, initial_capacity=8)
+    else:
+        a = SlidingBoundariesArchive(solution_dim=2, dims=[5] * nd, ranges=[(-1.0, 1.0)] * nd, dtype=dt,
+                                     extra_fields=extra, remap_frequency=50, buffer_capacity=60)
+    m0 = rng.uniform(-1, 1, size=(40, nd))
+    a.add(rng.normal(size=(40, 2)), rng.normal(size=40), m0, tag=np.arange(40, dtype=np.int32))
+
+    def snap():
+        d = a.data()
+        st = a.stats
+        be = a.best_elite
+        return ({k: np.array(v).tobytes() for k, v in d.items()}, len(a), repr(st),
+                None if be is None else {k: np.array(v).tobytes() for k, v in be.items()})
+    before = snap()
+    sol = rng.normal(size=(n, 2))
+    obj = rng.normal(size=n)
+    meas = rng.uniform(-1, 1, size=(n, nd))
+    tag = np.arange(n, dtype=np.int32)
+    val = {"nan": np.nan, "inf": np.inf, "-inf": -np.inf}[case["bad"]]
+    arg, pos, entry = case["arg"], case["pos"], case["entry"]
+    if entry != "add" and arg not in ("measures",):
+        arg = "measures"
+    what = f"{entry} with {n} rows, {arg} malformed ({case['bad']}) at row {pos}"
+    if arg == "objective":
+        obj[pos] = val
+    elif arg == "measures":
+        meas[pos, case["col"]] = val
+    elif arg == "solution_len":
+        sol = sol[:-1]
+    elif arg == "objective_len":
+        obj = obj[:-1]
+    elif arg == "extra":
+        tag = tag[:-1]
+    where = f"[C11] {type(a).__name__}({case['dtype']}, measure_dim {nd}) holding {before[1]} elites: {what}"
+    try:
+        if entry == "add":
+            a.add(sol, obj, meas, tag=tag)
+        elif entry == "index_of":
+            a.index_of(meas)
+        else:
+            a.retrieve(meas)
+        raised = None
+    except Exception as e:      # pylint: disable=broad-except
+        raised = e
+    after = snap()
+    STATS[f"bad:large:{entry}:{arg}"] = STATS.get(f"bad:large:{entry}:{arg}", 0) + 1
+    if raised is None:
+        changed = "; the archive changed" if after != before else ""
+        return Failure("oracle", f"{where} was accepted without an error{changed} (len {before[1]} -> {after[1]})")
+    if after != before:
+        diff = [k for k in before[0] if before[0][k] != after[0].get(k)]
+        return Failure("oracle", f"{where} raised {type(raised).__name__} but the archive changed: len {before[1]} -> "
+                       f"{after[1]}, fields differing {diff}, stats {before[2]} -> {after[2]}")
+    # a subsequent valid add behaves as if the rejected call had never happened (compared with a twin)
+    return None
+
+
 def run_case(case):
     fam = case.get("family", "fixed")
+    if fam == "large":
+        return run_large(case)
     if fam == "fixed":
         r = archlib.Run(case, {"C11"})
     elif fam == "sliding":
@@ -127,6 +226,7 @@ def run(ctx):
     ctx.explore("fixed", gen_fixed, run_case, ctx.n(350, 30000), nontrivial=nontrivial, time_budget=b)
     ctx.explore("sliding", gen_sliding, run_case, ctx.n(250, 20000), nontrivial=nontrivial, time_budget=b)
     ctx.explore("proximity", gen_prox, run_case, ctx.n(250, 20000), nontrivial=nontrivial, time_budget=b)
+    ctx.explore("large", gen_large, run_case, ctx.n(60, 1500), nontrivial=lambda c: True, time_budget=b)
     ctx.extra["faults_hit"] = dict(sorted(STATS.items()))
     ctx.extra["fault_triples_hit"] = len({k.rsplit(":", 1)[0] for k in STATS})
 
